@@ -90,6 +90,7 @@ _RESERVED_WORDS = frozenset(
         "for",
         "empty",
         "blank",
+        "continue",
     ]
 )
 
